@@ -1475,6 +1475,8 @@ class TLSRecordLayer(object):
     def _handshakeDone(self, resumed):
         self.resumed = resumed
         self.closed = False
+        # from now on every record has to be protected
+        self._recordLayer.plaintext_alerts_ok = False
 
     def _calcPendingStates(self, cipherSuite, masterSecret,
                            clientRandom, serverRandom, implementations):
